@@ -61,9 +61,13 @@ impl Case {
         })
     }
     pub fn show(&self) -> String {
+        let mut pt = crate::pat::show(&self.pat);
+        if pt.chars().count() > 160 {
+            pt = format!("{}...({} code points)", pt.chars().take(120).collect::<String>(), self.pat.len());
+        }
         let mut s = format!(
             "/{}/{} on \"{}\" from {}",
-            crate::pat::show(&self.pat),
+            pt,
             self.flags,
             crate::pat::show_str(&self.hay),
             self.start
@@ -278,6 +282,61 @@ impl Ctx {
                 .collect();
             handles.into_iter().map(|h| h.join().expect("shard thread panicked")).collect()
         });
+        self.merge(v, results, t0);
+    }
+
+    /// Complete enumeration: every case of `cases` is checked (sharded); no shrinking (the slice is small by construction).
+    pub fn run_list(&self, v: &Variant, cases: &[Case]) {
+        let t0 = Instant::now();
+        let shards = self.threads.max(1);
+        let results: Vec<ShardResult> = std::thread::scope(|sc| {
+            let handles: Vec<_> = (0..shards)
+                .map(|sh| {
+                    std::thread::Builder::new()
+                        .stack_size(64 << 20)
+                        .spawn_scoped(sc, move || {
+                            let mut res = ShardResult::empty();
+                            let mut local = Local { counting: true, ..Default::default() };
+                            let journal = journal_file(v, sh);
+                            for (i, case) in cases.iter().enumerate() {
+                                if i % shards != sh {
+                                    continue;
+                                }
+                                if res.failures.len() >= 3 {
+                                    break;
+                                }
+                                if let Some(j) = &journal {
+                                    // enumerated cases are identified by their index
+                                    write_journal(j, &[i as u32]);
+                                }
+                                res.evaluations += 1;
+                                match (v.check)(case, &mut local) {
+                                    Verdict::Pass { nontrivial } => {
+                                        if nontrivial && res.nontrivial.insert(case.hash()) && res.samples.len() < 2 {
+                                            res.samples.push(json!({"text": case.show()}));
+                                        }
+                                    }
+                                    Verdict::Skip(r) => *res.skipped.entry(r.to_string()).or_insert(0) += 1,
+                                    Verdict::Known(k) => *res.known.entry(k).or_insert(0) += 1,
+                                    Verdict::Fail(msg) => {
+                                        if res.failures.len() < 3 {
+                                            res.failures.push((case.clone(), msg));
+                                        }
+                                    }
+                                }
+                            }
+                            res.classes = local.classes;
+                            res
+                        })
+                        .unwrap()
+                })
+                .collect();
+            handles.into_iter().map(|h| h.join().expect("shard thread panicked")).collect()
+        });
+        self.merge(v, results, t0);
+    }
+
+    fn merge(&self, v: &Variant, results: Vec<ShardResult>, t0: Instant) {
         let mut evals = 0;
         let mut nontriv = 0usize;
         {
@@ -306,7 +365,6 @@ impl Ctx {
                     *agg.known.entry(k.clone()).or_insert(0) += n;
                 }
             }
-            // samples: up to 4 per variant, prefer non-trivial ones
             let mut taken = 0;
             for r in &results {
                 for s in &r.samples {
@@ -326,6 +384,57 @@ impl Ctx {
         for r in results {
             if let Some((case, msg)) = r.failure {
                 self.add_violation(v.name, &case, &msg);
+            }
+            for (case, msg) in r.failures {
+                self.add_violation(v.name, &case, &msg);
+            }
+        }
+    }
+
+    /// Run the same property in another build of this harness (different cargo profile / regress features)
+    /// and merge its summary; VIOLATION lines of the child are relayed.
+    pub fn run_other_build(&self, label: &str, rel_path: &str) -> bool {
+        let exe = format!("{}/harness/{}", self.verif_dir, rel_path);
+        if !std::path::Path::new(&exe).exists() {
+            self.note(format!("build '{}' not present ({}): skipped", label, exe));
+            return false;
+        }
+        let out = std::process::Command::new(&exe)
+            .arg(&self.prop)
+            .arg("--tier")
+            .arg(if self.tier == Tier::Quick { "quick" } else { "thorough" })
+            .arg("--seed")
+            .arg(self.seed.to_string())
+            .env("VERIF_SUMMARY_ONLY", label)
+            .env_remove("VERIF_CHILD")
+            .output();
+        match out {
+            Err(e) => {
+                self.note(format!("build '{}' could not be started: {}", label, e));
+                false
+            }
+            Ok(o) => {
+                let txt = String::from_utf8_lossy(&o.stdout).to_string();
+                let mut agg = self.agg.lock().unwrap();
+                let mut got = false;
+                for line in txt.lines() {
+                    if let Some(rest) = line.strip_prefix("SUMMARY ") {
+                        if let Ok(v) = serde_json::from_str::<Value>(rest) {
+                            got = true;
+                            agg.evaluations += v["evaluations"].as_u64().unwrap_or(0);
+                            agg.variants.push(json!({"build": label, "summary": v}));
+                        }
+                    } else if line.starts_with("VIOLATION ") {
+                        let path = line.split("replay=").nth(1).unwrap_or("").to_string();
+                        agg.violations.push(Violation { variant: format!("build:{}", label), case: Value::Null, show: format!("(in build '{}')", label), msg: "see child output".into(), path });
+                    } else if line.starts_with("  violation") {
+                        println!("[{}] {}", label, line);
+                    }
+                }
+                if !got {
+                    agg.notes.push(format!("build '{}' produced no summary (status {:?})", label, o.status.code()));
+                }
+                got
             }
         }
     }
@@ -362,10 +471,18 @@ impl Ctx {
             "wall_s": self.t0.elapsed().as_secs_f64(),
             "violations": agg.violations.len(),
         });
-        let dir = format!("{}/evidence", self.verif_dir);
-        let _ = std::fs::create_dir_all(&dir);
-        let path = format!("{}/{}.json", dir, self.prop);
-        std::fs::write(&path, serde_json::to_string_pretty(&ev).unwrap()).expect("cannot write evidence");
+        if let Ok(label) = std::env::var("VERIF_SUMMARY_ONLY") {
+            println!(
+                "SUMMARY {}",
+                json!({"build": label, "evaluations": agg.evaluations, "distinct_nontrivial": agg.nontrivial.len(), "violations": agg.violations.len(),
+                       "skipped": agg.skipped, "wall_s": self.t0.elapsed().as_secs_f64()})
+            );
+        } else {
+            let dir = format!("{}/evidence", self.verif_dir);
+            let _ = std::fs::create_dir_all(&dir);
+            let path = format!("{}/{}.json", dir, self.prop);
+            std::fs::write(&path, serde_json::to_string_pretty(&ev).unwrap()).expect("cannot write evidence");
+        }
         println!(
             "{} tier={:?} seed={} evaluations={} distinct_nontrivial={} skipped={:?} known={:?} wall={:.1}s",
             self.prop,
@@ -397,6 +514,22 @@ pub struct ShardResult {
     pub known: BTreeMap<String, u64>,
     pub samples: Vec<Value>,
     pub failure: Option<(Case, String)>,
+    pub failures: Vec<(Case, String)>,
+}
+
+impl ShardResult {
+    pub fn empty() -> ShardResult {
+        ShardResult {
+            evaluations: 0,
+            nontrivial: HashSet::new(),
+            classes: BTreeMap::new(),
+            skipped: BTreeMap::new(),
+            known: BTreeMap::new(),
+            samples: vec![],
+            failure: None,
+            failures: vec![],
+        }
+    }
 }
 
 /// In journal mode (after a crash of the first attempt) every case's choice vector is written to a
@@ -430,15 +563,7 @@ pub fn read_journal(path: &str) -> Option<Vec<u32>> {
 
 fn run_shard(v: &Variant, cases: usize, seed: u64, tier: Tier, shard: usize) -> ShardResult {
     let journal = journal_file(v, shard);
-    let mut res = ShardResult {
-        evaluations: 0,
-        nontrivial: HashSet::new(),
-        classes: BTreeMap::new(),
-        skipped: BTreeMap::new(),
-        known: BTreeMap::new(),
-        samples: vec![],
-        failure: None,
-    };
+    let mut res = ShardResult::empty();
     let mut config = Config::default();
     config.cases = cases as u32;
     config.failure_persistence = None;
